@@ -36,17 +36,22 @@ class CaseTimeout(Exception):
     pass
 
 
-def _alarm(signum, frame):
-    raise CaseTimeout()
-
-
 class limit:
+    """wall-clock limit for one implementation call.  The alarm keeps firing every 50 ms once the limit is
+    reached (an exception raised inside a numpy try/except can be swallowed or re-raised as another type), and
+    [fired] tells the caller that whatever exception came out was caused by the limit."""
     def __init__(self, seconds):
         self.s = seconds
+        self.fired = False
+
+    def _alarm(self, signum, frame):
+        self.fired = True
+        raise CaseTimeout()
 
     def __enter__(self):
-        self.old = signal.signal(signal.SIGALRM, _alarm)
-        signal.setitimer(signal.ITIMER_REAL, self.s)
+        self.old = signal.signal(signal.SIGALRM, self._alarm)
+        signal.setitimer(signal.ITIMER_REAL, self.s, 0.05)
+        return self
 
     def __exit__(self, *a):
         signal.setitimer(signal.ITIMER_REAL, 0)
@@ -115,8 +120,9 @@ def describe(c):
 def eval_real(c):
     """two runs with the same seeded Generator and differently seeded GLOBAL generator"""
     r = {"case": c, "bad": [], "n": None, "extent": None, "timeout": False}
+    lim = limit(c.get("limit", 5))
     try:
-        with limit(c.get("limit", 10)):
+        with lim:
             outs, fps = [], []
             for g in (c["gseed"], c["gseed"] + 7919):
                 np.random.seed(g % (2 ** 32))
@@ -130,6 +136,9 @@ def eval_real(c):
         r["timeout"] = True      # termination is not claimed by the property (and see the report: 1 x 1 grids)
         return r
     except Exception as e:
+        if lim.fired:
+            r["timeout"] = True
+            return r
         r["bad"].append((f"{c['fn']}:exception", f"{describe(c)} raised {type(e).__name__}: {e}"))
         return r
     for f0, f1 in fps:
@@ -233,17 +242,27 @@ def prep_bluenoise(c):
     points, and prepare the model input.  Worker side."""
     k, nx, ny = c["k"], c["nx"], c["ny"]
     r = {"case": c, "bad": [], "kmis": [], "skip": None}
-    rec = RecRng(make_source(c))
+    rec = RecRng(make_source(c), cap=c.get("cap", min(150000, 5000 + 200 * nx * ny * k)))
+    partial = False
+    out = None
+    lim = limit(c.get("limit", 20))
     try:
-        with limit(c.get("limit", 10)):
+        with lim:
             out = np.array(ps.bluenoise(k, nx, ny, rng=rec))
     except (CaseTimeout, StreamTooLong):
-        r["skip"] = "scripted-run-too-long"
-        return r
+        # termination is not claimed; the states the implementation went through are still examined:
+        # the iterations completed so far are rebuilt from the recorded draws and checked (S on the samples
+        # accepted so far, K on the accept/reject sequence)
+        partial = True
     except Exception as e:
-        r["bad"].append(("bluenoise:exception", f"bluenoise(k={k}, nx={nx}, ny={ny}) on a {c['mode']} stream (seed {c['seed']}) raised {type(e).__name__}: {e}"))
-        return r
-    r["bad"] += spec_output(c, out)
+        if lim.fired:
+            partial = True
+        else:
+            r["bad"].append(("bluenoise:exception", f"bluenoise(k={k}, nx={nx}, ny={ny}) on a {c['mode']} stream (seed {c['seed']}) raised {type(e).__name__}: {e}"))
+            return r
+    if not partial:
+        r["bad"] += spec_output(c, out)
+    r["partial"] = partial
     log = rec.log
     shape_ok = (len(log) >= 1 and log[0][0] == "uniform" and log[0][3] is not None and np.shape(log[0][4]) == (2,))
     if not shape_ok:
@@ -278,8 +297,12 @@ def prep_bluenoise(c):
             cands.append(xs + np.array([rho * np.cos(theta), rho * np.sin(theta)]))
             i += 2
         if i < n and log[i][0] != "choice":
+            if partial and i >= n - 1:
+                break                      # run cut in the middle of a candidate
             r["kmis"].append(f"draw {i}: unexpected {log[i][0]} in the candidate loop")
             return r
+        if i >= n and partial:
+            break                          # last iteration incomplete: dropped
         # outcome as seen through the next choice call (or the end of the loop)
         if i < n:
             nxt = log[i][1]
@@ -326,10 +349,12 @@ def prep_bluenoise(c):
             active = list(active)
             active.remove(idx)
         iters.append((idx, C, oc))
-    if active:
+    if active and not partial:
         r["kmis"].append(f"loop ended with active_cells {active[:8]} non-empty")
         return r
     recon = np.array(samples) / np.array([nx, ny])
+    if partial:
+        out = recon
     if recon.shape != out.shape:
         r["kmis"].append(f"{len(out)} points returned, {len(samples)} accepted according to the draws")
         return r
@@ -356,7 +381,7 @@ def prep_bluenoise(c):
         break
     for p in F:
         if not (0 <= p[0] <= nx and 0 <= p[1] <= ny):
-            r["bad"].append(("bluenoise:out-of-unit-square", f"sample {(float(p[0]), float(p[1]))} outside [0,{nx}]x[0,{ny}] on a {c['mode']} stream (k={k}, seed {c['seed']})"))
+            r["bad"].append(("bluenoise:out-of-unit-square", f"sample {(float(p[0]), float(p[1]))} outside [0,{nx}]x[0,{ny}] was accepted on a {c['mode']} stream (k={k}, seed {c['seed']}{', run cut after %d draws' % len(log) if partial else ''})"))
             break
     # model input
     allc = [x0] + [C for (_, C, _) in iters if len(C)]
@@ -402,6 +427,10 @@ def compare_bluenoise(ctx, r, o):
     ms = cur.list(lambda: [cur.z(), cur.z()])
     if ms != r["samples"]:
         ctx.k_mismatch("bluenoise: sample list differs between model and implementation", c)
+        return
+    if r["partial"]:
+        ctx.res.extra["unfinished_runs_examined"] = ctx.res.extra.get("unfinished_runs_examined", 0) + 1
+        ctx.res.traces += 1
         return
     if o["finished"] != ["1"]:
         ctx.k_mismatch("bluenoise: implementation returned while the model's active list is not empty", c)
@@ -554,10 +583,10 @@ def scripted_cases(tier, seed):
         k = int(g.integers(1, 41))
         if nx * ny * k > budget:
             continue
-        cases.append({"fn": "bluenoise", "mode": "scripted", "k": k, "nx": nx, "ny": ny, "seed": int(g.integers(0, 2 ** 31)), "limit": 20})
+        cases.append({"fn": "bluenoise", "mode": "scripted", "k": k, "nx": nx, "ny": ny, "seed": int(g.integers(0, 2 ** 31)), "limit": 30})
     # a few full-size ones
     for (k, nx, ny) in ([(40, 12, 12), (20, 12, 7), (25, 5, 12)] if tier == "quick" else [(40, 12, 12), (40, 12, 11), (20, 12, 7), (25, 5, 12), (33, 9, 12), (40, 10, 10), (7, 12, 12)]):
-        cases.append({"fn": "bluenoise", "mode": "scripted", "k": k, "nx": nx, "ny": ny, "seed": int(g.integers(0, 2 ** 31)), "limit": 20})
+        cases.append({"fn": "bluenoise", "mode": "scripted", "k": k, "nx": nx, "ny": ny, "seed": int(g.integers(0, 2 ** 31)), "limit": 30})
     na = 150 if tier == "quick" else 1500
     for _ in range(na):
         nx, ny = int(g.integers(1, 6)), int(g.integers(1, 6))
@@ -590,7 +619,23 @@ def nontrivial_key(c, n):
 
 def evaluate_real(ctx, cases):
     res = ctx.res
-    results = pmap(eval_real, cases)
+    # batches in shuffled order: if the implementation systematically does not return, the remaining
+    # real-generator bluenoise runs are dropped (the scripted runs examine unfinished runs state by state)
+    order = list(np.random.default_rng([ctx.seed, 5]).permutation(len(cases)))
+    cases = [cases[i] for i in order]
+    results, pos, aborted = [], 0, 0
+    while pos < len(cases):
+        batch = cases[pos:pos + 320]
+        pos += len(batch)
+        rs = pmap(eval_real, batch)
+        results += rs
+        bn = [r for r in rs if r["case"]["fn"] == "bluenoise"]
+        if len(bn) >= 40 and sum(r["timeout"] for r in bn) > 0.3 * len(bn):
+            rest = cases[pos:]
+            aborted = sum(1 for c in rest if c["fn"] == "bluenoise")
+            cases = cases[:pos] + [c for c in rest if c["fn"] != "bluenoise"]
+    if aborted:
+        res.skipped["real-bluenoise-runs-dropped-after-systematic-timeouts"] = res.skipped.get("real-bluenoise-runs-dropped-after-systematic-timeouts", 0) + aborted
     ext = {}
     hk = res.extra.setdefault("bluenoise_k_histogram", {})
     hn = res.extra.setdefault("bluenoise_points_histogram", {})
@@ -633,7 +678,25 @@ def evaluate_real(ctx, cases):
 
 def evaluate_scripted(ctx, cases):
     res = ctx.res
-    preps = pmap(prep, cases)
+    # batches in shuffled order: when the implementation systematically does not return, the remaining runs are
+    # cut after a short prefix of draws (the prefix is still examined state by state)
+    order = list(np.random.default_rng([ctx.seed, 6]).permutation(len(cases)))
+    cases = [dict(cases[i]) for i in order]
+    preps, pos, short = [], 0, False
+    while pos < len(cases):
+        batch = cases[pos:pos + 96]
+        pos += len(batch)
+        if short:
+            for c in batch:
+                if c["fn"] == "bluenoise":
+                    c["cap"], c["limit"] = 6000, 5
+        rs = pmap(prep, batch)
+        preps += rs
+        bn = [r for r in rs if r["case"]["fn"] == "bluenoise"]
+        if len(bn) >= 20 and sum(bool(r.get("partial")) for r in bn) > 0.3 * len(bn):
+            short = True
+    if short:
+        res.extra["scripted_runs_cut_short_after_systematic_non_return"] = True
     lines, keep = [], []
     for r in preps:
         c = r["case"]
@@ -643,7 +706,7 @@ def evaluate_scripted(ctx, cases):
         if r["skip"]:
             res.skip(r["skip"])
             continue
-        res.count(fam, digest(c) if ("out" in r and len(r["out"]) >= (2 if c["fn"] == "bluenoise" else 1)) else None)
+        res.count(fam, digest(c) if ("out" in r and r["out"] is not None and len(r["out"]) >= (2 if c["fn"] == "bluenoise" else 1)) else None)
         if r["kmis"]:
             ctx.k_mismatch(f"{c['fn']} ({c['mode']} stream): " + r["kmis"][0], c)
             continue
